@@ -45,7 +45,18 @@ func checkC13(c c13Case) *evid.Fail {
 	if f != nil {
 		return f
 	}
-	return c13Compare(c, input, toks)
+	if f := c13Compare(c, input, toks); f != nil {
+		return f
+	}
+	// the iterator form with the presence of a next token asked for twice before every fetch
+	toks2, f := tokenizeCapped(newTokenizer(c.Tok), input, 2)
+	if f == nil {
+		f = c13Compare(c, input, toks2)
+	}
+	if f != nil {
+		f.Sig = "queried-twice:" + f.Sig
+	}
+	return f
 }
 
 func c13Compare(c c13Case, input string, toks []tk) *evid.Fail {
@@ -529,6 +540,17 @@ func c13Run(rec *evid.Recorder, c c13Case) bool {
 	if f == nil {
 		f = c13Compare(c, input, toks)
 	}
+	if f == nil && len(input)%4 == 0 {
+		// a quarter of the cases also through the iterator with two has-next queries per fetch
+		t := getTok(c.Tok)
+		setOptions(t, 0)
+		toks2, f2 := tokenizeCapped(t, input, 2)
+		if f2 == nil {
+			putTok(c.Tok, t)
+			f2 = c13Compare(c, input, toks2)
+		}
+		f = f2
+	}
 	if f != nil {
 		if ff := checkC13(c); ff != nil {
 			return rec.Fail(ff, c)
@@ -643,7 +665,7 @@ func TestC13_EnumCustomConfig(t *testing.T) {
 	rec := evid.New("C13", "TestC13_EnumCustomConfig", "C13.custom", c13Rule+"; user configurations: disabled word sub-ranges above / below U+0100, added symbols with unregistered prefixes, re-mapped characters")
 	rec.Exhaustive = true
 	defer finish(t, rec)
-	W, S, I, B := tokenizers.Word, tokenizers.Symbol, tokenizers.Integer, tokenizers.Whitespace
+	W, S, I, B, P := tokenizers.Word, tokenizers.Symbol, tokenizers.Integer, tokenizers.Whitespace, tokenizers.Special
 	type cfgCase struct {
 		cfg string
 		ls  []lexeme
@@ -654,6 +676,7 @@ func TestC13_EnumCustomConfig(t *testing.T) {
 		"generic+ws": {{{W, "你好"}}, {{S, "。"}}, {{W, "世界"}}, {{W, "x"}}, {{S, "\n"}}, {{B, " "}}, {{I, "12"}}, {{S, "　"}}, {{W, "é"}}},
 		"generic+sym": {{{S, "..."}}, {{S, "."}, {S, "."}}, {{W, "a"}}, {{S, "=:~"}}, {{S, "="}, {S, ":"}}, {{S, "-->"}}, {{B, " "}}, {{S, "<=>"}}, {{S, "<="}}, {{S, "≠≠"}}, {{S, "≠"}}, {{I, "7"}},
 			// a four- and a six-character symbol whose inner prefixes are not registered, whole and cut short
+			{{P, ";"}}, {{P, ";"}, {P, ";"}}, {{P, "¤"}},
 			{{S, "<!--"}}, {{S, "<"}, {S, "!"}}, {{S, "<"}, {S, "!"}, {S, "-"}, {W, "b"}}, {{S, "=:~=:~"}}, {{S, "=:~"}, {S, "="}, {S, ":"}, {B, " "}}},
 		"expression+dis": {{{W, "x"}}, {{S, "。"}}, {{W, "y1"}}, {{S, "+"}}, {{I, "1"}}, {{B, " "}}, {{W, "é中"}}, {{S, "<="}}},
 	}
@@ -700,12 +723,13 @@ func TestC13_EnumCustomConfig(t *testing.T) {
 			for _, s := range []string{"...", "=:~", "-->", "::=", "≠≠", "<=>", "<!--", "=:~=:~"} {
 				registered[s] = S
 			}
+			registered[";"], registered["¤"] = P, P
 		case "expression+dis":
 			registered = map[string]int{"<=": S, ">=": S, "<>": S, "!=": S, ">>": S, "<<": S}
 		}
 		rest := []rune(joinLexemes(cc.ls))
 		for _, l := range cc.ls {
-			if l.T == S {
+			if l.T == S || l.T == P {
 				if text, _ := c16Expect(registered, rest); text != l.V {
 					ok = false
 				}
